@@ -171,6 +171,10 @@ def regenerate(ctx=None):
         regenerate_programs_fmt(ctx)
     except Exception:
         pass
+    try:    # C06 translation validation: the compiled `+=` / `-=` statements
+        regenerate_programs_xadd(ctx)
+    except Exception:
+        pass
     return txt
 
 
@@ -617,6 +621,116 @@ def regenerate_programs_fmt(ctx=None):
     f = d / "ProgramsFmt.lean"
     if not f.exists() or f.read_text() != txt:
         tmp = d / "ProgramsFmt.lean.tmp"
+        tmp.write_text(txt)
+        tmp.replace(f)
+    return txt
+
+
+# ---- C06 translation validation: the family of compiled `+=` / `-=` statements ---------------------------------
+XADD_FMT_TAG = {"i": "s4", "I": "u4", "q": "s8", "Q": "u8", "x": "fx"}
+XADD_KIND_TAG = {"const": "c", "reg": "r", "expr": "e"}
+XADD_FD = 40        # the fake map fd is canonicalised (fsim hands out increasing numbers)
+
+
+def xadd_consts(fmt):
+    """the constants c06.run draws from (its list is local to run())"""
+    return [0, 1, 5, 255, 1000, 0x7fffffff // 100000 if fmt == "x" else 0x7fffffff]
+
+
+def xadd_family():
+    """the finite family C06 quantifies over, as c06.py enumerates it: c06.FAMILY (format x amount kind x sign) x
+    c06.ADDR_KINDS on shared array-map memory with every constant c06.run draws, plus the local variable (constant 7)"""
+    from .props import c06
+    fam = []
+    for fmt, kind, sign in c06.FAMILY:
+        for addr in c06.ADDR_KINDS:
+            for const in (xadd_consts(fmt) if kind != "reg" else [5]):
+                fam.append({"fmt": fmt, "kind": kind, "sign": sign, "addr": addr, "const": const, "local": False})
+        fam.append({"fmt": fmt, "kind": kind, "sign": sign, "addr": "var", "const": 7, "local": True})
+    for m in fam:
+        mem = "loc" if m["local"] else m["addr"][:3]
+        cst = "" if m["kind"] == "reg" else str(m["const"])
+        m["id"] = f"{mem}_{XADD_FMT_TAG[m['fmt']]}_{XADD_KIND_TAG[m['kind']]}{'p' if m['sign'] > 0 else 'n'}{cst}"
+        m["group"] = f"{mem}_{XADD_FMT_TAG[m['fmt']]}"
+        amt = {"const": str(m["const"]), "reg": "r8", "expr": f"r8 * 3 + {m['const']}"}[m["kind"]]
+        var = {"var": "v", "sum": "m[r7 + &v]", "computed": "m[r7 + r6]"}[m["addr"]]
+        m["name"] = f"{'local' if m['local'] else 'map'} {m['fmt']}: {var} {'+=' if m['sign'] > 0 else '-='} {amt}"
+    return fam
+
+
+def _xadd_member(m):
+    """assemble the REAL statement with /repo's generator (through c06.build) and describe it: instruction rows, where the
+    variable lives, and the untrusted hints the proofs re-check (position of the XADD, steps executed before it)"""
+    from . import interp
+    from .props import c06
+    info = c06.build(m["fmt"], m["kind"], m["sign"], m["const"], local=m["local"], addr=m["addr"])
+    insns = [(interp.opval(i.opcode), int(i.dst), int(i.src), int(i.off), int(i.imm)) for i in info["insns"]]
+    fd = info["fd"]
+    if fd is not None:      # canonical fd in the pseudo map load
+        insns = [(op, d, s, o, XADD_FD if (op == 0x18 and s == 1 and im == fd) else im) for op, d, s, o, im in insns]
+    xs = [k for k, i in enumerate(insns) if i[0] in (0xc3, 0xdb)]
+    xpos = xs[0] if xs else 0
+    steps = 0
+    try:                    # instructions executed before the XADD when one instance runs alone
+        if m["local"]:
+            mach = interp.Machine(info["insns"], [], {})
+            mach.wr(1, 0); mach.wr(8, 5); mach.wr(6, info["off"])
+        else:
+            _, (mach,) = c06.make_threads(info, m["fmt"], 1, [5])
+        mach.run()
+        steps = mach.trace.index(xpos)
+    except Exception:
+        pass
+    xi = insns[xpos] if xs else (0, 0, 0, 0, 0)
+    off, other = int(info["off"]), int(info["off_other"])
+    return {"insns": insns, "xpos": xpos, "steps": steps, "xdst": xi[1], "xsrc": xi[2], "xoff": xi[3],
+            "voff": -off if m["local"] else off, "other": -other if m["local"] else other,
+            "size": 0 if info["size"] is None else int(info["size"])}
+
+
+def render_programs_xadd():
+    """C06 translation validation: every member of `xadd_family()` as a Lean instruction list plus the table `xaddTable`
+    (where the variable lives, its width, the amount description) that the proofs in Ebv/Props/C06TV*.lean quantify over;
+    a statement the generator refuses becomes `[]` (the proofs then fail)"""
+    head = ["/- REGENERATED from /repo on every run by harness/vh/extract.py (render_programs_xadd); do not edit. -/",
+            "import Ebv.Model.Ebpf", "namespace Ebv.Programs", "open Ebv.Ebpf",
+            "/-- one compiled `v += a` / `v -= a` (C06): `loc` variable on the stack (else in the value of array map `fd`, `size` bytes);",
+            "`addr` 0 declared variable / 1 `m[base + const]` / 2 `m[base + register]`; `n` width in bytes; `voff` offset of the",
+            "variable in the map value (local: distance below r10); `other` the same for the neighbouring variable the rest of the",
+            "program writes; amount: `kind` 0 constant `const` / 1 register `areg` / 2 expression `areg * mul + const`, negated for",
+            "`-=` (`neg`), times `scale` (fixed-point format x); hints re-checked by the proofs: the XADD is `prog[xpos]` with",
+            "registers `xdst`, `xsrc` and offset `xoff`; `steps` instructions run before it -/",
+            "structure XaddProg where", "  name : String", "  loc : Bool", "  addr : Nat", "  n : Nat", "  voff : Nat", "  other : Nat",
+            "  kind : Nat", "  neg : Bool", "  const : Int", "  mul : Int", "  scale : Int", "  areg : Nat", "  fd : Int", "  size : Nat",
+            "  xpos : Nat", "  steps : Nat", "  xdst : Nat", "  xsrc : Nat", "  xoff : Int", "  prog : List Insn"]
+    body, groups = [], {}
+    b = lambda x: "true" if x else "false"
+    for m in xadd_family():
+        try:
+            d = _xadd_member(m)
+        except Exception:
+            d = {"insns": [], "xpos": 0, "steps": 0, "xdst": 0, "xsrc": 0, "xoff": 0, "voff": 0, "other": 0, "size": 0}
+        rows = [f"⟨{op}, {dst}, {src}, {off}, {imm}⟩" for op, dst, src, off, imm in d["insns"]]
+        body.append(f"def xadd_{m['id']} : List Insn := [" + ", ".join(rows) + "]")
+        body.append(f"def xaddE_{m['id']} : XaddProg := ⟨\"{m['name']}\", {b(m['local'])}, {('var', 'sum', 'computed').index(m['addr'])}, "
+                    f"{4 if m['fmt'] in 'iI' else 8}, {d['voff']}, {d['other']}, {('const', 'reg', 'expr').index(m['kind'])}, "
+                    f"{b(m['sign'] < 0)}, {m['const']}, 3, {100000 if m['fmt'] == 'x' else 1}, 8, {XADD_FD}, {d['size']}, "
+                    f"{d['xpos']}, {d['steps']}, {d['xdst']}, {d['xsrc']}, {d['xoff']}, xadd_{m['id']}⟩")
+        groups.setdefault(m["group"], []).append(f"xaddE_{m['id']}")
+    for tag, names in groups.items():
+        body.append(f"def xaddTable_{tag} : List XaddProg := [" + ", ".join(names) + "]")
+    body.append("def xaddTable : List XaddProg := " + " ++ ".join(f"xaddTable_{t}" for t in groups))
+    return "\n".join(head + body + ["end Ebv.Programs"]) + "\n"
+
+
+def regenerate_programs_xadd(ctx=None):
+    """write lean/Ebv/Generated/ProgramsXadd.lean only when its content changes (keeps lake's build cache valid)"""
+    txt = render_programs_xadd()
+    d = core.LEAN / "Ebv" / "Generated"
+    d.mkdir(parents=True, exist_ok=True)
+    f = d / "ProgramsXadd.lean"
+    if not f.exists() or f.read_text() != txt:
+        tmp = d / "ProgramsXadd.lean.tmp"
         tmp.write_text(txt)
         tmp.replace(f)
     return txt
